@@ -93,7 +93,8 @@ def run(rec, cfg):
             except Exception as e:
                 outs[excl] = type(e).__name__
         if rng.random() < 0.25:
-            seq = [("pad", True), ("pad", False), ("fn+", "abs"), ("pad", True), ("fn-", "abs"), ("pad", False), ("table", True), ("table", False), ("copy", None)]
+            longname = rng.choice(["inversehyperbolicsine", "a" * 17, "abcdefghijklmnopqrstuvwxyzabcdefg", "f", "floor", "z" * 64, "absolutevalueofthe"])
+            seq = [("fn+", longname), ("pad", True), ("fn-", longname), ("pad", True), ("pad", False), ("fn+", "abs"), ("pad", True), ("fn-", "abs"), ("pad", False), ("table", True), ("table", False), ("copy", None)]
             rng.shuffle(seq)
             for op, arg in seq[: rng.randint(2, 6)]:
                 if op == "pad":
@@ -111,15 +112,15 @@ def run(rec, cfg):
                     flip._vmon_funcs = was
                     if rng.random() < 0.5:
                         flip.functions["abs"] = AbsExpression
-                        flip._vmon_funcs = {"sgn": "Sgn", "abs": "Abs"}
+                        flip._vmon_funcs = dict(was, abs="Abs")
                 elif op == "fn+":
                     flip.functions[arg] = AbsExpression
-                    flip._vmon_funcs = {"sgn": "Sgn", arg: "Abs"}
+                    flip._vmon_funcs = dict(getattr(flip, "_vmon_funcs", {"sgn": "Sgn"}), **{arg: "Abs"})
                 else:
                     flip.functions.pop(arg, None)
-                    flip._vmon_funcs = {"sgn": "Sgn"}
+                    flip._vmon_funcs = {k: v for k, v in getattr(flip, "_vmon_funcs", {"sgn": "Sgn"}).items() if k != arg}
                 rec.arm("tok:settings-changed-between-calls")
-                for t in (s, s.replace("sgn", "abs") if "sgn" in s else "abs(" + s[:12] + ")"):
+                for t in (s, s.replace("sgn", "abs") if "sgn" in s else "abs(" + s[:12] + ")", longname + "(" + s[:8] + ")", "2" + longname + " + " + longname[:-1]):
                     try:
                         flip.tokenize(t)
                     except Exception:
@@ -134,6 +135,7 @@ def run(rec, cfg):
                     except Exception:
                         pass
             flip.functions.pop("abs", None)
+            flip.functions.pop(longname, None)
             flip._vmon_funcs = {"sgn": "Sgn"}
         if rng.random() < 0.15:
             # the tokens handed out by a Tokenizer are the caller's, attributes included: scribbled
